@@ -349,20 +349,22 @@ class BaseDAG(Generic[P, RVDAG]):
                 candidate_id (Identifier): candidate id of an `ExecNode` that will be in the new DAG
                 xn_ids (Set[Identifier]): Set of `ExecNode`s that will be in the new DAG
             """
-            preds = self.graph_ids.predecessors(candidate_id)
-            for pred in preds:
-                if pred not in xn_ids:
-                    # this candidate is necessary to produce the output,
-                    # it is an input to the original DAG
-                    # it is not provided as an input to the composed DAG
-                    # hence the user forgot to supply it! (raise error)
-                    if pred in dag_inputs_ids:
-                        _raise_missing_input(pred)
+            # walk the dependencies with an explicit stack: a dependency path can be longer than the recursion limit
+            pending = [candidate_id]
+            while pending:
+                for pred in self.graph_ids.predecessors(pending.pop()):
+                    if pred not in xn_ids:
+                        # this candidate is necessary to produce the output,
+                        # it is an input to the original DAG
+                        # it is not provided as an input to the composed DAG
+                        # hence the user forgot to supply it! (raise error)
+                        if pred in dag_inputs_ids:
+                            _raise_missing_input(pred)
 
-                    # necessary intermediate dependency.
-                    # collect it in the set
-                    xn_ids.add(pred)
-                    _add_missing_deps(pred, xn_ids)
+                        # necessary intermediate dependency.
+                        # collect it in the set
+                        xn_ids.add(pred)
+                        pending.append(pred)
 
         # 4.3 add all required dependencies for each output
         for o_id in out_ids:
